@@ -494,6 +494,15 @@ struct World
             Real3 d{1e-9 * (u01() - 0.5), 1e-9 * (u01() - 0.5), u01() < 0.5 ? 1.0 : -1.0};
             return make_unit_vector(d);
         }
+        if (r < 0.21)
+        {
+            // polar angle log-uniform around either pole (rotate() switches formula at
+            // sin(theta) = 0.005 for double), any azimuth
+            double st = std::pow(10.0, -9 + u01() * (std::log10(0.02) + 9));
+            double ph = 2 * constants::pi * u01();
+            double cz = std::sqrt(1 - st * st) * (u01() < 0.5 ? 1.0 : -1.0);
+            return make_unit_vector(Real3{st * std::cos(ph), st * std::sin(ph), cz});
+        }
         double c = 2 * u01() - 1;
         double phi = 2 * constants::pi * u01();
         double s = std::sqrt(std::max(0.0, 1 - c * c));
@@ -1407,6 +1416,11 @@ int run_samples(int argc, char** argv)
             rk.add(cutE_hi);
             rk.add(cutG_hi);
             rk.add(cutG_hi3);
+            // incident polar angle w.r.t. the z axis (scoping of the rotate() finding)
+            double const sinth_in = std::sqrt(std::max(0.0, 1 - c.dir[2] * c.dir[2]));
+            double const sinth_min = 0.005;
+            rk.add(sinth_in);
+            rk.add(sinth_min);
             rk.add(cutE_lo);
             rk.add(cutG_lo);
             rk.add(kn_lo);
@@ -1460,6 +1474,7 @@ int run_samples(int argc, char** argv)
                 {"secs", jsecs},
                 {"nfalse", nfalse},
                 {"np", static_cast<int>(w.particles->size())},
+                {"ypos", c.dir[1] >= 0},
                 {"draws", draws},
                 {"aborted", aborted},
                 {"al",
@@ -1484,6 +1499,8 @@ int run_samples(int argc, char** argv)
                   {"cutEhi", c.cutE >= 0 ? rk(cutE_hi) : -1},
                   {"cutGhi", c.cutG >= 0 ? rk(cutG_hi) : -1},
                   {"cutGhi3", c.cutG >= 0 ? rk(cutG_hi3) : -1},
+                  {"sinth", rk(sinth_in)},
+                  {"sinthmin", rk(sinth_min)},
                   {"kn", rk(kn_lo)},
                   {"floor", c.floor >= 0 ? rk(floor_lo) : -1},
                   {"tmaxlo", c.tmax >= 0 ? rk(tmax_lo) : -1},
@@ -1497,6 +1514,16 @@ int run_samples(int argc, char** argv)
                   {"mom", g17(mom)},
                   {"info", c.info}}},
             };
+            // anomalous residuals: add the outgoing directions for the human reader
+            if (mom > mom_tol || rn_out > norm_tol)
+            {
+                json sd = json::array();
+                for (auto const& s : secs)
+                    sd.push_back({g17(s.d[0]), g17(s.d[1]), g17(s.d[2])});
+                rec["x"]["odir"] = {g17(dout[0]), g17(dout[1]), g17(dout[2])};
+                rec["x"]["sdir"] = sd;
+                rec["x"]["momfix"] = g17(momfix);
+            }
             out(rec);
 
             // ---- coverage bookkeeping ----
